@@ -238,7 +238,7 @@ func c16(c *Ctx) {
 	c16ReadLoopsEnd(c, "C16.13/read-loops-end-with-the-input")
 	c16DecodedCountBoundsAllocation(c, "C16.16/decoded-size-is-bounded-before-it-allocates")
 	c16InnerNodeNotEmpty(c, "C16.15/decoded-inner-node-is-not-empty")
-	c16NoNilNil(c, "C16.14/no-nil-result-without-error", []string{"embedded/appendable/singleapp", "embedded/appendable/multiapp", "embedded/appendable/remoteapp", "embedded/appendable/fileutils", "embedded/appendable", "embedded/store", "embedded/tbtree", "embedded/ahtree", "embedded/htree", "embedded/cache", "embedded/multierr", "embedded/watchers"})
+	c16NoNilNil(c, "C16.14/no-nil-result-without-error", []string{"embedded/appendable/singleapp", "embedded/appendable/multiapp", "embedded/appendable/remoteapp", "embedded/appendable/fileutils", "embedded/appendable", "embedded/store", "embedded/tbtree", "embedded/ahtree", "embedded/htree", "embedded/cache", "embedded/multierr", "embedded/watchers", "pkg/database", "pkg/truncator", "pkg/replication", "pkg/stream", "pkg/verification"})
 }
 
 // c16PeerMessages: proof messages are decoded by protobuf into trees of optional sub-messages; what verification
@@ -1003,7 +1003,7 @@ func c16NoNilNil(c *Ctx, r string, pkgs []string) {
 			if !ok || len(rt.Results) != 2 {
 				continue
 			}
-			if nilOnSamePath(rt.Results[0], rt.Results[1], b, 0) {
+			if nilOnSamePath(rt.Results[0], rt.Results[1], b, 0) || (isNilConst(rt.Results[0]) && knownNilAt(rt.Results[1], b)) {
 				bad = append(bad, c.pos(rt.Pos()))
 			}
 		}
@@ -1211,4 +1211,44 @@ func c16DecodedCountBoundsAllocation(c *Ctx, r string) {
 	if n < 3 {
 		c.undecided(r, "floor", fmt.Sprintf("%d allocations sized by a decoded 32/64-bit number found", n))
 	}
+}
+
+func isNilConst(v ssa.Value) bool {
+	cst, ok := v.(*ssa.Const)
+	return ok && cst.IsNil()
+}
+
+// knownNilAt: block at is dominated by an edge on which `v == nil` holds (v is not a constant: the error variable of a
+// `for err == nil { ... return nil, err ... }` loop).
+func knownNilAt(v ssa.Value, at *ssa.BasicBlock) bool {
+	if v == nil || v.Referrers() == nil {
+		return false
+	}
+	for _, rf := range *v.Referrers() {
+		bo, ok := rf.(*ssa.BinOp)
+		if !ok || (bo.Op != token.EQL && bo.Op != token.NEQ) {
+			continue
+		}
+		other := bo.Y
+		if bo.Y == v {
+			other = bo.X
+		}
+		if !isNilConst(other) {
+			continue
+		}
+		for _, r2 := range *bo.Referrers() {
+			ifi, ok := r2.(*ssa.If)
+			if !ok {
+				continue
+			}
+			succ := 0
+			if bo.Op == token.NEQ {
+				succ = 1
+			}
+			if edgeDominates(ifi.Block(), succ, at) {
+				return true
+			}
+		}
+	}
+	return false
 }
